@@ -290,6 +290,8 @@ def run(check, an: Analysis):
                             'classified as %s' % cause, path=rules.path_lines(path, index))
         check.instance('I', 'wrapper:%s-reaches-own-handler' % cls.rsplit('.', 1)[-1].replace(
             'ext:', ''), hit, where_fn(wfn), 'handled by its specific handler')
+    # every awaiter receives the exception the payload raised, the object itself
+    _scope.check_failure_is_kept_as_raised(check, an, 'I')
     # a cancellation that loses the race against the end of the task is disarmed
     from . import c03
     c03._check_signal_lifecycles(check, an, wrapper, rule='K',
